@@ -157,7 +157,10 @@ class HeapSnap:
         return self.heap[ref.id]["pos"]
 
     def out(self, ref):
-        return self.heap[ref.id]["out"]
+        cell = self.heap[ref.id]
+        if cell["kind"] == "stream":
+            return cell["data"]  # in-memory stream written sequentially at its end
+        return cell["out"]
 
     def rest(self, ref):
         """unread part of an input stream"""
@@ -165,6 +168,11 @@ class HeapSnap:
 
     def dict_items(self, ref):
         return self.heap[ref.id]["items"]
+
+    def seeks(self, ref):
+        """offsets passed to seek() on an output stream, in order"""
+        cell = self.heap[ref.id]
+        return [s[0] for s in cell.get("seeks", ())]
 
     def rl(self, ref):
         """view of a list-of-records cell (or of an object field holding one)"""
@@ -266,6 +274,10 @@ class Ctx(HeapSnap):
 
     def assume(self, f):
         self.eng.assume(f)
+
+    def lemma(self, label, f):
+        """proof hint that is itself PROVED here (an obligation of kind `hint`) and then available as a fact"""
+        self.eng.oblig("hint", label, f, assume_after=True)
 
     def inst(self, k):
         """instantiate every recorded quantified fact at index term k (proof hint; adds only true facts)"""
@@ -439,7 +451,14 @@ class Contract:
                 try:
                     b[n] = ast.literal_eval(defaults[i - dstart])
                 except Exception:
-                    raise EngineError("non-literal default of %s in %s" % (n, self.target))
+                    try:
+                        # constant arithmetic such as 1024 * 1024 (no names, no calls)
+                        node = defaults[i - dstart]
+                        if any(isinstance(x, (ast.Name, ast.Call, ast.Attribute)) for x in ast.walk(node)):
+                            raise ValueError
+                        b[n] = eval(compile(ast.Expression(node), "<default>", "eval"), {"__builtins__": {}})
+                    except Exception:
+                        raise EngineError("non-literal default of %s in %s" % (n, self.target))
             else:
                 raise EngineError("missing argument %s calling %s" % (n, self.target))
         for a, d in zip(fr.node.args.kwonlyargs, fr.node.args.kw_defaults):
@@ -483,11 +502,20 @@ class Contract:
         eng = ctx.eng
         for loc in self.modifies(ctx, **bound):
             ref, field = loc
-            cur = eng.heap[ref.id][field]
+            cur = eng.heap[ref.id].get(field)
             if eng.heap[ref.id]["kind"] == "reclist" and field == "cols":
                 from .reclist import havoc_cols
 
                 eng.set_field(ref, "cols", havoc_cols(eng, eng.heap[ref.id], eng.heap[ref.id].get("label", "recs") + "_post"))
+                continue
+            if eng.heap[ref.id]["kind"] == "stream" and field == "out":
+                # a writer contract applied to an in-memory stream positioned at its end: appends there
+                cell = eng.heap[ref.id]
+                if not eng.prove_now(V.eq(cell["pos"], V.L(cell["data"]))):
+                    raise EngineError("writer contract applied to a memory stream that is not positioned at its end")
+                ext = eng.fresh_seq("%s.ext" % cell.get("label", "mem"), "byte", "bytes")
+                eng.set_field(ref, "data", V.concat(cell["data"], ext))
+                eng.set_field(ref, "pos", cell["pos"] + V.L(ext))
                 continue
             if eng.heap[ref.id]["kind"] == "ostream" and field == "out":
                 # append-only: the callee can only have extended the stream
